@@ -1353,7 +1353,61 @@ func randomScenario(w *mon.Worker, name string, rng *mon.Rng, pre func(sc *scena
 			}
 		})
 	}
+	if mode == "switch" {
+		sc.switchTail(w, drv, running, &stopped)
+	}
 	sc.finish(func() { stopped.Store(true) })
+}
+
+// switchTail ends a "switch" scenario with a quiet epilogue: publishers and the
+// switcher have stopped; the connection with the oldest head becomes the only
+// live one; if it is at most one block behind (so a refresh makes it the
+// choice) a caller waits for its next seqno - usually one that an earlier
+// choice has already delivered to waiters - and the connection reports exactly
+// that seqno, nothing else. The caller must return ok.
+func (sc *scenario) switchTail(w *mon.Worker, drv *actor, running func() bool, stopped *atomic.Bool) {
+	for running() {
+		time.Sleep(ms(2))
+	}
+	stopped.Store(true)
+	if !waitTimeout(&sc.wgP, 5*time.Second) {
+		return // finish() will deal with whoever is stuck
+	}
+	low, lowHead, top := -1, uint32(0), uint32(0)
+	for id, c := range sc.conns {
+		h := c.MasterHead().Seqno
+		if low < 0 || h < lowHead {
+			low, lowHead = id, h
+		}
+		if h > top {
+			top = h
+		}
+	}
+	if lowHead == 0 || lowHead+1 < top {
+		w.Count("switch_tail_skipped", 1)
+		return
+	}
+	for id, c := range sc.conns {
+		c.SetAlive(id == low)
+	}
+	sc.doSwitch(drv)
+	if b := sc.p.VerifBest(); b == nil || b.ID() != low {
+		w.Count("switch_tail_skipped", 1) // the grid decides selection; here it only sets the stage
+		return
+	}
+	n := lowHead + 1
+	if n <= top {
+		w.Count("switch_tail_waits_for_a_seqno_seen_before_the_switch", 1)
+	} else {
+		w.Count("switch_tail_waits_for_a_new_seqno", 1)
+	}
+	timeout := ms(700)
+	if d := time.Since(sc.t0) + timeout; d > sc.maxPlan {
+		sc.maxPlan = d
+	}
+	sc.spawn("w", "w.tail", &sc.wgW, func(a *actor) { sc.doWait(a, n, timeout, -1) })
+	time.Sleep(ms(20))
+	sc.doSet(drv, low, n)
 }
 
 // ---------------------------------------------------------------------------
@@ -1713,6 +1767,50 @@ func directedQueuedTogetherWithNewerHeadOfAnother(w *mon.Worker, order string, r
 	sc.finish(nil)
 }
 
+// a refresh moves the choice to a connection that is one block behind (the
+// former choice died); a caller then waits for the seqno that the former
+// choice had already delivered to waiters; the new choice reports it. What
+// the pool has told waiters about another connection is no reason to withhold
+// this report.
+func directedSwitchToLaggingThenAwaitDeliveredSeqno(w *mon.Worker, rng *mon.Rng) {
+	sc := newScenario(w, "directed/switch-to-lagging-connection-x-wait-for-seqno-already-delivered", rng)
+	strategy := pool.Strategy(pool.BestPingStrategy)
+	if rng.Bool() {
+		strategy = pool.FirstWorkingConnection
+	}
+	sc.buildOrdered(rng.Perm(2), strategy, time.Hour, func(int) bool { return true }, func(int) time.Duration { return ms(1) })
+	a0 := sc.initBest
+	b0 := 1 - a0
+	sc.desc["schedule"] = fmt.Sprintf("2 connections at head 100, the choice is %d; waiter w0 for 101; %d reports 101 (w0 returns ok); %d dies, refresh: the choice is %d (one block behind); waiter w1 for 101; %d reports 101; nothing else is published: w1 must return ok", a0, a0, a0, b0, b0)
+	drv, release := sc.adopt("drv", "drv")
+	defer release()
+	sc.doSet(drv, a0, 100)
+	sc.doSet(drv, b0, 100)
+	sc.startRun()
+	sc.maxPlan = ms(2200)
+	var firstDone atomic.Bool
+	sc.spawn("w", "w0", &sc.wgW, func(a *actor) { sc.doWait(a, 101, ms(1000), -1); firstDone.Store(true) })
+	sc.awaitCount("subscribe.compared", 1, time.Second)
+	time.Sleep(ms(5))
+	sc.doSet(drv, a0, 101)
+	for end := time.Now().Add(1500 * time.Millisecond); !firstDone.Load() && time.Now().Before(end); {
+		time.Sleep(time.Millisecond)
+	}
+	sc.conns[a0].SetAlive(false)
+	sc.doSwitch(drv)
+	if b := sc.p.VerifBest(); b == nil || b.ID() != b0 {
+		w.Inconclusive("directed schedule: the refresh did not move the choice (selection is judged by the grid)")
+		sc.finish(nil)
+		return
+	}
+	time.Sleep(ms(5))
+	sc.spawn("w", "w1", &sc.wgW, func(a *actor) { sc.doWait(a, 101, ms(1000), -1) })
+	sc.awaitCount("subscribe.compared", 2, time.Second)
+	time.Sleep(ms(5))
+	sc.doSet(drv, b0, 101)
+	sc.finish(nil)
+}
+
 func kindAt(point string) string {
 	switch point {
 	case "notify.send":
@@ -1743,6 +1841,7 @@ func directedCases(thorough bool) []directedCase {
 		cs = append(cs, directedCase{"subscribe-vs-publish", directedSubscribeVsPublish})
 		cs = append(cs, directedCase{"woken-waiter-vs-two-heads", directedWokenWaiterVsTwoHeads})
 		cs = append(cs, directedCase{"full-channel-vs-subscribe", directedFullChannelVsSubscribe})
+		cs = append(cs, directedCase{"switch-to-lagging-then-await-delivered-seqno", directedSwitchToLaggingThenAwaitDeliveredSeqno})
 		for _, v := range []string{"choice-first", "other-first"} {
 			v := v
 			cs = append(cs, directedCase{"queued-with-newer-head-of-another-" + v, func(w *mon.Worker, rng *mon.Rng) { directedQueuedTogetherWithNewerHeadOfAnother(w, v, rng) }})
